@@ -21,7 +21,13 @@ RULE = ("one run = one seeded multi-stage chain history served by an independent
         "purchase-pair payments to wallet addresses of either chain at any index <= last used + gap, spends of "
         "earlier wallet outputs to the same / other / foreign addresses mixed with foreign inputs, spends of "
         "third-party outputs of earlier wallet transactions, legacy and segwit encodings, third-party outputs of "
-        "template (family standard/faulty) or non-template (family exotic) script kinds), optional blocks "
+        "template (family standard/faulty) or non-template (family exotic) script kinds; family hostile_name: "
+        "claim/update/support names that are not valid UTF-8 -- lone continuation bytes, overlong and truncated "
+        "forms, surrogates, latin-1, UTF-16 -- on outputs paid to the wallet and on third-party outputs of "
+        "transactions spending wallet coins; family hostile_channel_key: channel claims whose public key is "
+        "neither 33 raw bytes nor DER of a secp256k1 key -- junk, empty, absent, truncated DER, point off the "
+        "curve, other DER structures, an RSA key -- as third-party outputs of wallet transactions or paid to the "
+        "wallet; both with well-formed controls), optional blocks "
         "confirming a seeded ancestor-closed part of the mempool, optional bursts up to the 100-per-address "
         "limit, optional ladders of payments climbing through the gap window within one stage; the wallet starts "
         "before the first stage or is restored against the already populated hub (then the initial sync is "
@@ -48,6 +54,9 @@ COMPONENTS = {
 }
 ASSUMPTIONS = [
     'the hub never retracts a transaction (mempool -> block only) and keeps <= 100 transactions per address',
+    'claim names and claim payloads are arbitrary bytes on chain (consensus validates neither): families '
+    'hostile_name / hostile_channel_key only use scripts that match the wallet templates; the account holds its '
+    'private key (default, unlocked wallet)',
     'notifications for one address are FIFO and never overtake the subscribe reply of that address; everything '
     'else (replies of different requests, notifications of different addresses) interleaves freely',
     'the last notification sent for an address after a change carries its current status (as a real hub does)',
@@ -63,7 +72,9 @@ EXPECTED_PROBES = ['notification_overtook_batch_fetch', 'duplicate_notification'
                    'spend_to_same_address', 'mixed_foreign_inputs', 'spend_third_party_output', 'stage_overlap',
                    'initial_sync_with_history', 'funded_at_gap_edge', 'history_reordered', 'oracle_checked',
                    'burst_to_limit', 'used_at_subscribe_time', 'cascade_discovery_at_subscribe', 'restore_checked',
-                   'ladder', 'verified_spend_known_before_funding']
+                   'ladder', 'verified_spend_known_before_funding', 'non_utf8_name_paid_to_wallet',
+                   'non_utf8_name_third_party_in_wallet_spend', 'odd_valid_name', 'malformed_channel_key',
+                   'wellformed_foreign_channel_key']
 MAX_BUDGET_FRACTION = 0.02
 
 QUIESCE_BOUND = 600.0     # virtual seconds allowed between the last notification and quiescence
@@ -191,7 +202,72 @@ def gen(run_seed, tier):
             k = r.choice([k for k in THIRD_EXOTIC if k != 'garbage'])
             r.choice(txs)['third'].append({'k': k, 'amt': 1000})
     sc['ops'] = ops
+    _hostile_data(run_seed, sc)
     return sc
+
+
+def _hostile_data(run_seed, sc):
+    """Turn ~16 % of the runs into one of two fault-free families whose transactions carry data that matches
+    every script template but is hostile one layer further in.  Decided and drawn on its own stream."""
+    from simverif.core import hub as H
+    h = stream('C09.gen.hostile_data', run_seed)
+    x = h.random()
+    if x >= 0.16:
+        return
+    txs = [o for o in sc['ops'] if o['op'] == 'tx' and o['pays']]
+    if not txs:
+        return
+    sc['fault_p'] = 0.0
+    if x < 0.08:
+        # claim / support / update NAMES that are not valid UTF-8 (plus odd valid ones as controls): on outputs
+        # paying the wallet (a tip anybody can send) and on third-party outputs of transactions spending wallet coins
+        sc['family'] = 'hostile_name'
+        names = sorted(H.HOSTILE_NAMES)
+        odd = sorted(H.ODD_VALID_NAMES)
+
+        def pick():
+            return (H.HOSTILE_NAMES[h.choice(names)] if h.random() < 0.8 else H.ODD_VALID_NAMES[h.choice(odd)]).hex()
+        injected = 0
+        for o in txs:
+            for p in o['pays']:
+                if p['kind'] != 'plain' and h.random() < 0.5:
+                    p['name_hex'] = pick()
+                    injected += 1
+            if o['spends'] and h.random() < 0.6:
+                o['third'].append({'k': h.choice(['claim_p2pkh', 'support_p2pkh', 'claim_p2sh', 'update_p2sh',
+                                                  'support_p2sh']), 'amt': 1000, 'name_hex': pick()})
+                injected += 1
+        for _ in range(1 if injected else 2):
+            o = h.choice(txs)
+            if o['spends'] and h.random() < 0.5:
+                o['third'].append({'k': h.choice(['claim_p2pkh', 'support_p2pkh']), 'amt': 1000,
+                                   'name_hex': H.HOSTILE_NAMES[h.choice(names)].hex()})
+            else:
+                p = h.choice(o['pays'])
+                p.update(kind=h.choice(['support', 'support', 'claim', 'update', 'support_data']),
+                         name_hex=H.HOSTILE_NAMES[h.choice(names)].hex(),
+                         cid=h.getrandbits(160).to_bytes(20, 'big').hex(), payload='stream')
+                p.pop('name', None)
+    else:
+        # CHANNEL claims whose public key is neither 33 raw bytes nor DER of a secp256k1 key (plus well-formed
+        # controls): somebody else's channel in a transaction that touches the wallet, or one paid to the wallet
+        sc['family'] = 'hostile_channel_key'
+        bad = sorted(H.MALFORMED_CHANNEL_KEYS)
+        good = sorted(H.WELLFORMED_CHANNEL_KEYS)
+        forced = h.choice(txs)
+        for o in txs:
+            if o is forced or h.random() < 0.3:
+                if o is forced or h.random() < 0.8:
+                    pl = H.channel_payload(H.MALFORMED_CHANNEL_KEYS[h.choice(bad)]).hex()
+                else:
+                    pl = H.channel_payload(H.WELLFORMED_CHANNEL_KEYS[h.choice(good)]).hex()
+                if h.random() < 0.75:
+                    o['third'].append({'k': h.choice(['claim_p2pkh', 'claim_p2sh', 'update_p2sh']), 'amt': 1000,
+                                       'name_hex': b'@x'.hex(), 'payload_hex': pl})
+                else:
+                    p = h.choice(o['pays'])
+                    p.update(kind=h.choice(['claim', 'update']), name='@mine', payload_hex=pl,
+                             cid=h.getrandbits(160).to_bytes(20, 'big').hex())
 
 
 def shrink(sc):
@@ -313,6 +389,7 @@ def build_tx(W, run, op):
 
     outs = []
     edge = False
+    hostile_names, hostile_payloads, third_hostile_names = [], [], []
     for p in op.get('pays', []):
         chain = 1 if p.get('chain') else 0
         idx, at_edge = resolve_index(W, chain, p.get('idx', ['abs', 0]))
@@ -320,9 +397,14 @@ def build_tx(W, run, op):
         address = W.address(chain, idx)
         h160 = H.address_to_h160(address)
         kind = p.get('kind', 'plain')
-        name = p.get('name', 'a').encode()
+        name = bytes.fromhex(p['name_hex']) if 'name_hex' in p else p.get('name', 'a').encode()
         cid = bytes.fromhex(p.get('cid', '00' * 20))
-        payload = H.PAYLOADS.get(p.get('payload', 'stream'), b'')
+        payload = bytes.fromhex(p['payload_hex']) if 'payload_hex' in p else \
+            H.PAYLOADS.get(p.get('payload', 'stream'), b'')
+        if p.get('kind', 'plain') != 'plain' and 'name_hex' in p:
+            hostile_names.append(name)
+        if p.get('kind') in ('claim', 'update') and 'payload_hex' in p:
+            hostile_payloads.append(payload)
         if kind == 'claim':
             script = H.claim_prefix(name, payload) + H.p2pkh(h160)
         elif kind == 'update':
@@ -338,9 +420,15 @@ def build_tx(W, run, op):
     for t in op.get('third', []):
         k = t.get('k', 'p2pkh')
         try:
-            script = H.third_party_script(k, rng, t.get('g'))
+            script = H.third_party_script(k, rng, t.get('g'),
+                                          bytes.fromhex(t['name_hex']) if 'name_hex' in t else None,
+                                          bytes.fromhex(t['payload_hex']) if 'payload_hex' in t else None)
         except ValueError:
             continue
+        if 'name_hex' in t:
+            third_hostile_names.append(bytes.fromhex(t['name_hex']))
+        if 'payload_hex' in t:
+            hostile_payloads.append(bytes.fromhex(t['payload_hex']))
         outs.append(H.TxOut(int(t.get('amt', 0)), script, None, 'third:' + k))
         if k in H.THIRD_EXOTIC:
             exotic += 1
@@ -373,6 +461,25 @@ def build_tx(W, run, op):
             run.probes['purchase_pair'] += 1
         if segwit:
             run.probes['segwit_tx'] += 1
+        def not_utf8(b):
+            try:
+                b.decode()
+                return False
+            except UnicodeDecodeError:
+                return True
+        if any(not_utf8(b) for b in hostile_names):
+            run.probes['non_utf8_name_paid_to_wallet'] += 1
+        if spent_addresses and any(not_utf8(b) for b in third_hostile_names):
+            run.probes['non_utf8_name_third_party_in_wallet_spend'] += 1
+        if any(not not_utf8(b) for b in hostile_names + third_hostile_names if b != b'@x'):
+            run.probes['odd_valid_name'] += 1
+        for pl in hostile_payloads:
+            keys = [k for k, v in sorted(H.MALFORMED_CHANNEL_KEYS.items()) if H.channel_payload(v) == pl]
+            if keys:
+                run.probes['malformed_channel_key'] += 1
+                run.probes['malformed_channel_key:' + keys[0]] += 1
+            elif any(H.channel_payload(v) == pl for v in H.WELLFORMED_CHANNEL_KEYS.values()):
+                run.probes['wellformed_foreign_channel_key'] += 1
         if exotic:
             run.probes['third_party_exotic'] += 1
         if standard:
